@@ -34,6 +34,10 @@ def gen_base(rs: Stream) -> Dict[str, Any]:
     cells = P.gen_cells(rs.sub("cells"), n, (0.85, 0.1, 0.05))
     spacing = [rs.uniform(0.7, 1.5) for _ in range(3)]
     jit = rs.pick([0.0, 0.08])
+    # some models live far from the origin (millimetres, geo-referenced coordinates)
+    offset = [0.0, 0.0, 0.0]
+    if rs.chance(0.2):
+        offset = [round(rs.uniform(500, 8000), 1), round(rs.uniform(-2000, 2000), 1), round(rs.uniform(0, 100), 1)]
     points: Dict[str, List[float]] = {}
     blocks = []
     for i, c in enumerate(cells):
@@ -43,7 +47,7 @@ def gen_base(rs: Stream) -> Dict[str, Any]:
             pid = f"n{node[0]}_{node[1]}_{node[2]}"
             if pid not in points:
                 jr = Stream(rs.key, "jit", pid)
-                points[pid] = [round(node[k] * spacing[k] + (jr.uniform(-jit, jit) if jit else 0.0), 6) for k in range(3)]
+                points[pid] = [round(offset[k] + node[k] * spacing[k] + (jr.uniform(-jit, jit) if jit else 0.0), 6) for k in range(3)]
             corners.append(pid)
         rot = hexref.IDENTITY if rs.chance(0.5) else rs.randrange(24)
         rc = hexref.renumber(corners, rot)
@@ -430,10 +434,17 @@ def gen_history(seed: int, faults: str) -> Dict[str, Any]:
             pts = [base["points"][p] for p in b["corners"]]
             lens = [models.dist(pts[u], pts[v]) for (u, v) in hexref.AXIS_EDGES[ch["axis"]]]
             avg = sum(lens) / 4
-            ch["args"] = {"count": ch["args"]["count"], "start_size": round(0.96 * avg, 6)}
             u, v = hexref.AXIS_EDGES[ch["axis"]][0]
+            if rs.chance(0.5):
+                # the axis-level grading (average length) cannot realise the chop any more
+                ch["args"] = {"count": ch["args"]["count"], "start_size": round(0.96 * avg, 6)}
+                frac = 0.4
+            else:
+                # the axis still can, its first edge cannot (the chop keeps its first-cell size on every edge)
+                ch["args"] = {"count": ch["args"]["count"], "start_size": round(0.7 * min(lens), 6), "preserve": "start_size"}
+                frac = 0.55
             transient = {"block": b["name"], "corner": v, "from": list(pts[v]),
-                         "to": [round(pts[v][k] + 0.4 * (pts[u][k] - pts[v][k]), 6) for k in range(3)]}
+                         "to": [round(pts[v][k] + frac * (pts[u][k] - pts[v][k]), 6) for k in range(3)]}
     for n in names:
         for st in construction_ops(by[n], base["points"], victim_chop if n == victim else None):
             do(st)
@@ -523,7 +534,8 @@ def gen_history(seed: int, faults: str) -> Dict[str, Any]:
             n = rs.pick([x for x in movable_ops if x not in m.deleted] or movable_ops)
             c = rs.randrange(8)
             base_pos = m.pending.get((n, c)) or m.pos[n][c]
-            to = [round(base_pos[k] + rs.uniform(-0.08, 0.08), 6) for k in range(3)]
+            amp = rs.pick([0.08, 0.08, 0.01, 0.002])  # adjustments are not always large
+            to = [round(base_pos[k] + rs.uniform(-amp, amp), 6) for k in range(3)]
             do({"op": "move_corner", "target": n, "corner": c, "to": to})
         elif kind == "transient_failure":
             # shorten the edge, try to write (grading cannot realise the chop), put it back, write
